@@ -39,13 +39,16 @@ mod c35;
 mod c36;
 mod c37;
 mod c38;
+mod c39;
 mod c40;
 mod c41;
 mod c42;
 mod c43;
+mod c44;
 mod c45;
 mod c46;
 mod c47;
+mod c48;
 mod c49;
 mod c50;
 
@@ -87,13 +90,16 @@ pub fn run(item: &str, repo: &str, out: &str) -> Result<String, String> {
         c36::run,
         c37::run,
         c38::run,
+        c39::run,
         c40::run,
         c41::run,
         c42::run,
         c43::run,
+        c44::run,
         c45::run,
         c46::run,
         c47::run,
+        c48::run,
         c49::run,
         c50::run,
     ];
